@@ -53,6 +53,10 @@ type query struct {
 	Path   string `json:"path"`
 	X0     bool   `json:"x0"`
 	Long   bool   `json:"long"`
+	Mp     struct {
+		N    int `json:"n"`
+		Side int `json:"side"`
+	} `json:"mp"`
 }
 
 type gcase struct {
@@ -345,13 +349,16 @@ func (r *caseRun) run() {
 				return
 			}
 			leafHash = taggedHash("TapLeaf", []byte{0xc0}, varbytes(leafScript))
-			qx, parity, err := w.tweak(kInt, leafHash)
+			// the script tree: the leaf sits below q.Mp.N branch nodes; BIP341: k' = hash_TapBranch(smaller || larger)
+			root, nodes := merklePath(w, leafHash, q.Mp.N, q.Mp.Side)
+			qx, parity, err := w.tweak(kInt, root)
 			if err != nil {
 				r.failf("driver", "%v", nil, err)
 				return
 			}
 			spk = append([]byte{0x51, 0x20}, qx...)
 			control = append([]byte{0xc0 | parity}, kInt.xonly...)
+			control = append(control, nodes...)
 		} else {
 			spk = append([]byte{0x51, 0x20}, kOut.xonly...)
 		}
@@ -414,9 +421,13 @@ func (r *caseRun) run() {
 					if !wantRes {
 						over = "a different digest"
 					}
-					r.failf("verdict-bip341", "VerifyTxScript returned %v for a %s-path taproot spend signed over %s (hash type 0x%02x, annex %v, script tokens %v)",
+					rule := "verdict-bip341"
+					if q.Mp.N > 0 {
+						rule += ":merkle-path" // script tree with several leaves
+					}
+					r.failf(rule, "VerifyTxScript returned %v for a %s-path taproot spend signed over %s (hash type 0x%02x, annex %v, Merkle path of %d, script tokens %v)",
 						map[string]interface{}{"digest": hx(d), "panic": p, "tx": hx(t.serialize()), "spent": spentHex(t), "witness": hexs(tx.SegWit[q.Idx])},
-						res, q.Path, over, lo, q.Annex, q.Script)
+						res, q.Path, over, lo, q.Annex, q.Mp.N, q.Script)
 				}
 			}
 			return
@@ -456,6 +467,31 @@ func (r *caseRun) run() {
 	default:
 		r.failf("driver", "unknown mode %q", nil, q.Mode)
 	}
+}
+
+// merklePath: sibling hashes for a leaf n levels below the root.  side says how the running hash compares with its
+// sibling at each level (0 always smaller, 1 always larger, 2 / 3 alternating starting smaller / larger), so both
+// orders of the branch hash occur.  Deterministic in (seed, leaf, n, side): equal trees give equal output keys.
+func merklePath(w *world, leaf []byte, n, side int) (root, nodes []byte) {
+	k := leaf
+	rng := w.rng(append([]byte(fmt.Sprintf("merkle-%d-%d-", n, side)), leaf...))
+	for i := 0; i < n; i++ {
+		smaller := side == 0 || (side == 2 && i%2 == 0) || (side == 3 && i%2 == 1)
+		var node []byte
+		for {
+			node = rbytes(rng, 32)
+			if c := bytes.Compare(k, node); (smaller && c < 0) || (!smaller && c > 0) {
+				break
+			}
+		}
+		nodes = append(nodes, node...)
+		if smaller {
+			k = taggedHash("TapBranch", k, node)
+		} else {
+			k = taggedHash("TapBranch", node, k)
+		}
+	}
+	return k, nodes
 }
 
 // lenientTapDigest: candidate digests for the undefined cases only (never a prediction): the BIP341 message
